@@ -20,6 +20,7 @@ CONSTANTS
   CfModes = {"plain", "plain_strict", "folded", "folded_strict"}
   DevRebuildMergesAcrossState = FALSE
   DevEncCheckIgnoresStrict = FALSE
+  DevCasefoldOpaqueHashFails = FALSE
   DevDupFoldsPlainDir = FALSE
   DevInodeUninitWipes = FALSE
 INVARIANT TypeOK
